@@ -49,10 +49,12 @@ def corruptions(wd, seed):
     variant("tail", {"C03"}, "a module outside the square set", lambda e: e["out"].__setitem__("tail_clean", False))
     variant("input-byte", {"C01", "C06"}, "one input byte changed (symbol no longer decodes to it)",
             lambda e: e["input"].__setitem__(0, (e["input"][0] ^ 1) if e["input"] else 0), src=[x for x in base if len(x["input"]) > 2], k=1)
+    variant("row-accessor", {"C01"}, "the public row accessor disagrees with the matrix", lambda e: e["out"].__setitem__("rows_agree", False))
     variant("panic", {"C10"}, "outcome replaced by a panic", lambda e: e.__setitem__("out", {"kind": "Panic", "why": "Panic:seeded"}))
     variant("wrong-error", {"C05"}, "symbol replaced by an error outcome", lambda e: e.__setitem__("out", {"kind": "Err", "why": "EncodedData"}))
     # render side
-    for scen, picks in (("text", [("text-char", {"C16"}, "one character of a text line changed", lambda e: e["lines"][3].__setitem__(4, 9608 if e["lines"][3][4] != 9608 else 32))]),
+    for scen, picks in (("text", [("text-char", {"C16"}, "one character of a text line changed", lambda e: e["lines"][3].__setitem__(4, 9608 if e["lines"][3][4] != 9608 else 32)),
+                                  ("print-short", {"C16"}, "print() drops the last line of the rendering", lambda e: e.__setitem__("printed", e["printed"][:-2] + [[]]))]),
                         ("svg", [("svg-missing-cell", {"C12"}, "one sub-path removed", lambda e: e["obs"]["layers"][0]["cells"].pop()),
                                  ("svg-moved-cell", {"C12"}, "one sub-path moved", lambda e: e["obs"]["layers"][0]["cells"].__setitem__(0, [0, 0])),
                                  ("svg-fill", {"C12"}, "layer colour changed", lambda e: e["obs"]["layers"][0]["fill"].__setitem__(1, 49)),
@@ -84,6 +86,15 @@ def corruptions(wd, seed):
     fe = [{"ev": "FileOp", "id": 1, "tag": "file:svg:EFBIG:2", "renderer": "svg", "fault": "EFBIG", "len": 1000, "limit": 500, "pre": "absent", "ret": "Ok", "msg": "", "file": "prefix", "k": 500},
           {"ev": "FileOp", "id": 2, "tag": "file:svg:none:0", "renderer": "svg", "fault": "none", "len": 1000, "limit": -1, "pre": "absent", "ret": "Ok", "msg": "", "file": "other", "k": 1000},
           {"ev": "FileOp", "id": 3, "tag": "file:png:ENOENT:0", "renderer": "png", "fault": "ENOENT", "len": 1000, "limit": -1, "pre": "absent", "ret": "Panic", "msg": "", "file": "special", "k": -1}]
+    # a build that differs after a rejected request on the same builder registers (aftermath pattern)
+    p = os.path.join(wd, "aftermath.ndjson")
+    runner.drive(core, "aftermath", seed, "quick", p)
+    evs = _events(p)
+    g = evs[0]["grp"]
+    es = [e for e in evs if e["grp"] == g]
+    last = [i for i, e in enumerate(es) if e["ev"] == "HBuild" and e["bid"] == 1][-1]
+    es = json.loads(json.dumps(es)); _flip(es[last]["out"]["vals"], es[last]["out"]["size"] - 1, es[last]["out"]["size"] - 1)
+    out.append(("after-rejected", es, {"C14"}, "the request repeated after a disturbance returns another matrix"))
     for i, (nm, desc) in enumerate([("file-ok-on-fault", "Ok returned although the write was cut short"), ("file-ok-wrong-bytes", "Ok returned with other bytes on disk"), ("file-panic", "panic instead of an error value")]):
         out.append((nm, [fe[i]], {"C19"}, desc))
     return out
